@@ -12,7 +12,12 @@ Two further workload dimensions (same oracle):
   and rarely passed parameters AT the decision boundary of the function (isclose's asymmetric band, ties, values on bin edges,
   crossing clip bounds, exact multiples, half-way ranks, unequal lengths ...) x both operand orders x operand kind per position
   {quantity, bare ndarray, bare list, bare scalar}; NumPy alone is also asked whether swapping the operands / dropping the
-  parameters changes its answer, and a decision class that was never order-sensitive makes the run INCONCLUSIVE.
+  parameters changes its answer, and a decision class that was never order-sensitive makes the run INCONCLUSIVE;
+* operand aliasing x special values (vf/gen/c06_alias.py) - every boundary template (all parameter sets) and every catalogue form
+  with two compatible unit-carrying operands is run with both positions fed from ONE array: the second operand being an equal
+  twin (control), a view a[...] or the very same object f(a, a), crossed with the data class finite (control) / one NaN / all NaN /
+  +-inf / -0.0 / mixed; NumPy alone is asked whether the special values change its answer, and a relation or data class whose
+  comparisons never met such a case makes the run INCONCLUSIVE.
 """
 import inspect
 import warnings
@@ -20,6 +25,7 @@ import numpy as np
 from vf import core
 from vf.gen import npcatalog as nc
 from vf.gen import c06_boundary as cb
+from vf.gen import c06_alias as ca
 from .common import chunks
 
 RULE = ("one evaluation = one call template (function or ndarray method/operator x call form: base, one optional parameter as "
@@ -28,7 +34,9 @@ RULE = ("one evaluation = one call template (function or ndarray method/operator
         "nesting, shape, dtype kind, exact values, out= buffer and operands after the call; every form with two or more unit-carrying operands is run once more with "
         "one drawn operand bare (spelled ndarray / list / scalar); the decision-boundary family adds (two-operand template x parameter set at the decision boundary) x "
         "operand order {xy, yx} x operand kind pattern {Q,Q / Q,bare / bare,Q with bare spelled ndarray, list, scalar}; a refusal (unyt raises) is counted "
-        "but is not a distinct cell; calls NumPy itself refuses are discarded. distinct = (template id, shape class, dtype, family[, bare operand and spelling | operand order, operand kind pattern])")
+        "but is not a distinct cell; calls NumPy itself refuses are discarded. The aliasing dimension adds (boundary template | catalogue form with two compatible unit-carrying operands) x "
+        "relation of the second operand to the first {equal twin, view a[...], same object} x data class {finite, nan, all-nan, inf, neg-zero, mixed}. "
+        "distinct = (template id, shape class, dtype, family[, bare operand and spelling | operand order, operand kind pattern | alias, relation, data class])")
 ASSUMPTIONS = (
     "NumPy applied to the stripped data (np.asarray of every unyt operand, fresh copies, out= replaced by a bare buffer) is the oracle",
     "all operands of one dimension slot carry the same unit (A->m, B->s, 1->dimensionless; further families: all dimensionless, A->K; thorough adds g/km, kg*m/s**2 and 1/s, degC, and 0-d operands as unyt_array instead of unyt_quantity), so no conversion factor is involved",
@@ -39,6 +47,7 @@ ASSUMPTIONS = (
     "np.array_equal/array_equiv with one bare operand answer False by design (a bare array is dimensionless, not metres): that form is not generated (also not by the any-form bare dimension; the boundary family drives them with two quantities only, in both orders)",
     "where an operand is handed over bare as a nested list or a Python scalar, the oracle is NumPy called with the same list / scalar (not with an ndarray of the generated dtype): what NumPy infers from Python objects is then the same on both sides; the receiver of an ndarray method or operator is never spelled as list/scalar (that would not be an ndarray method call)",
     "boundary family: 'the answer depends on the operand order / on the optional parameters' is measured on NumPy alone with the bare data (f(x, y) vs f(y, x), with vs without the parameters) and is used only as a workload-quality gate, never as a verdict; symmetric decision classes (== / !=, union1d, setxor1d) are exempt from the order gate",
+    "aliasing dimension: NumPy is run with the same relation between its bare operands (same ndarray object twice / a[...] / an equal copy) as the unit-carrying run, so identity shortcuts NumPy itself takes are part of the oracle; 'the special values change the answer' is measured on NumPy alone (special data vs the finite data of the same case) and is used only as a workload-quality gate; -0.0 compares equal to 0.0, so the neg-zero class is reported but exempt from that gate; a failure is attributed by re-running the controls (equal twin with the same data class, same relation with finite data): the key names the relation and/or the data class only where the control does not fail the same way",
     "a tuple returned where NumPy returns a namedtuple/list of the same length is the same nesting (sequence-ness is compared, not the class); recorded as note",
     "strings (array2string/array_repr/array_str/str/repr/format) intentionally mention the unit: only 'is a string' is judged; bytes/text written to files are compared exactly",
     "functions unyt declares unsupported may raise (allowed by 'either raises'); when they return they are judged like any other",
@@ -154,7 +163,7 @@ def compare(u, b, strict_text, notes, path="r", promo_ok=False, narrow=None):
             if narrow is None and ua.dtype.kind in "fc" and ba.dtype.kind in "fc" and min(_eps_of(ua.dtype), _eps_of(ba.dtype)) < max(_eps_of(ua.dtype), _eps_of(ba.dtype)):
                 narrow = (max(_eps_of(ua.dtype), _eps_of(ba.dtype)), 0.0)
         if ba.dtype.kind in "OSUV":
-            eq = ua.tolist() == ba.tolist()
+            eq = _obj_equal(ua.tolist(), ba.tolist())
         elif ba.dtype.kind in "mM":
             eq = bool(np.array_equal(ua, ba))
         else:
@@ -175,6 +184,18 @@ def compare(u, b, strict_text, notes, path="r", promo_ok=False, narrow=None):
         return ("nesting", path, f"type {type(u).__name__} vs NumPy {type(b).__name__}")
     notes.add("uncompared-type:" + type(b).__name__)
     return None
+
+
+def _obj_equal(x, y):
+    """equality of the contents of object/string arrays, NaN equal to NaN (list equality falls back to identity for NaN)"""
+    if isinstance(x, list) and isinstance(y, list):
+        return len(x) == len(y) and all(_obj_equal(a, b) for a, b in zip(x, y))
+    try:
+        if bool(x == y):
+            return True
+        return bool(x != x) and bool(y != y)
+    except Exception:
+        return x is y
 
 
 def _short(a):
@@ -302,9 +323,103 @@ def _spelled(wrap, target_q, spelling):
 
 def _narrow_of(dt, bl):
     if np.dtype(dt).kind in "fc" and _eps_of(np.dtype(dt)) > 1e-10:
-        mags = [float(np.max(np.abs(q.data))) for _, q, _ in bl if q.data.size and q.data.dtype.kind in "fciu"]
+        mags = []
+        for _, q, _ in bl:
+            if q.data.size and q.data.dtype.kind in "fciu":
+                m = np.abs(q.data)
+                m = m[np.isfinite(m)]               # operands may hold NaN / inf (aliasing x special values dimension)
+                if m.size:
+                    mags.append(float(np.max(m)))
         return (_eps_of(np.dtype(dt)), max(mags + [1.0]))
     return None
+
+
+# ------------------------------------------------------------------------------------------------ aliasing x special values
+def _first_diff(ru, rb, ul, bl, strict_text, promo, narrow):
+    """(where, kind) of the first disagreement between a unit-carrying run and NumPy's, None when they agree"""
+    d = compare(ru, rb, strict_text, set(), promo_ok=promo, narrow=narrow)
+    if d:
+        return ("result", d[0])
+    for (p, q, ou), (_, _, ob) in zip(ul, bl):
+        d = compare(_asarr(ou), _asarr(ob), True, set(), p, promo, narrow)
+        if d:
+            return ("out-buffer" if q.role == "out" else "operand-after-call", d[0])
+    return None
+
+
+def _alias_runs(rec, t, make_call, combos, layout, wraps, seen, strict_text, promo, dt, opt, main, case, cell, prefix):
+    """the dimension operand aliasing x special values for one case.  make_call(relation, special) -> Call with both operand
+    positions fed from one array (raises Skip where the class does not exist); combos: the (relation, special) pairs to run;
+    main: {fam: result of the all-distinct-operands run of the same case} (same failure -> same key); prefix: counter prefix"""
+    numpy_finite = {}
+
+    def numpy_run(relation, special):
+        call = make_call(relation, special)
+        ba, bk, bl = call.realize(nc.bare_wrap, layout)
+        return call, bl, t.observe(ba, bk, t.invoke(ba, bk))
+
+    def probe(fam, relation, special):
+        """control run for attributing a failure: "numpy-refuses" | "refused" | None (agrees) | (where, kind)"""
+        try:
+            call, bl, rb = numpy_run(relation, special)
+        except Exception:
+            return "numpy-refuses"
+        try:
+            ua, uk, ul = call.realize(wraps[fam], layout)
+            ru = t.observe(ua, uk, t.invoke(ua, uk))
+        except Exception:
+            return "refused"
+        rec.count(prefix + ":control-runs-for-attribution")
+        return _first_diff(ru, rb, ul, bl, strict_text, promo, _narrow_of(dt, bl))
+
+    for relation, special in combos:
+        try:
+            call, bl, rb = numpy_run(relation, special)
+        except nc.Skip:
+            continue
+        except Exception:
+            rec.count("discarded:numpy-refuses")
+            rec.count(prefix + ":discarded:numpy-refuses")
+            continue
+        # does the data class change NumPy's own answer? (NumPy alone; workload-quality gate, never a verdict)
+        sensitive = False
+        if special != ca.CONTROL_SPECIAL:
+            if relation not in numpy_finite:
+                try:
+                    numpy_finite[relation] = (numpy_run(relation, ca.CONTROL_SPECIAL)[2],)
+                except Exception:
+                    numpy_finite[relation] = None
+            if numpy_finite[relation] is not None:
+                rec.count(prefix + ":special-sensitivity-probed")
+                sensitive = compare(rb, numpy_finite[relation][0], True, set()) is not None
+
+        def tally(name, relation=relation, special=special, sensitive=sensitive):
+            rec.count(f"{prefix}:{name}")
+            rec.count(f"{prefix}:{name}:rel-{relation}")
+            rec.count(f"{prefix}:{name}:data-{special}")
+            rec.count(f"{prefix}:{name}:{relation}+{special}")
+            if name == "compared" and relation == "same-object":
+                rec.reach("alias-cmp:" + t.func_name)
+            if sensitive:
+                rec.count(f"{prefix}:{name}-special-sensitive")
+                rec.count(f"{prefix}:{name}-special-sensitive:rel-{relation}")
+                rec.count(f"{prefix}:{name}-special-sensitive:data-{special}")
+
+        def keyfn(famspec, fam, where, kind, relation=relation, special=special):
+            m = (main or {}).get(fam)
+            if isinstance(m, tuple) and m[:2] == (where, kind):
+                return m[2]                      # the run with independent operands fails the same way: same mechanism, same key
+            sig = (where, kind)
+            qual = []
+            if relation != ca.CONTROL_RELATION and probe(fam, ca.CONTROL_RELATION, special) != sig:
+                qual.append("operands-" + relation)          # an equal twin does not fail this way: the relation is the mechanism
+            if special != ca.CONTROL_SPECIAL and probe(fam, relation, ca.CONTROL_SPECIAL) != sig:
+                qual.append("data-" + special)               # finite data do not fail this way: the data class is the mechanism
+            base = f"C06:{t.func_name}:{where}-{kind}:{fam}" if famspec else f"C06:{t.func_name}({opt}):{where}-{kind}"
+            return base + ":" + ("+".join(qual) if qual else "equal-operands")
+        _judge(rec, t, lambda wrap, call=call: call.realize(wrap, layout), rb, bl, wraps, seen, strict_text, promo, _narrow_of(dt, bl), keyfn,
+               lambda fam, relation=relation, special=special: cell(fam) + ("alias", relation, special), layout,
+               dict(case, args=call.args, kwargs=call.kwargs, variant=f",operands:{relation},data:{special}"), tally=tally)
 
 
 def worker(batch, rec):
@@ -376,6 +491,17 @@ def _catalogue(payload, rec, quick, seed, wraps, seen):
                            lambda fam: (tid, shape, dt, fam), layout, case,
                            sample={"template": tid, "shape": shape, "dtype": dt, "numpy": rb if _is_small(rb) else str(type(rb))})
 
+                    # ---- dimension "operand aliasing x special values" for any form with two compatible unit-carrying operands
+                    if "mixed-bare" not in t.tags:
+                        prs = ca.pairs(call)
+                        if prs:
+                            qa, qb = prs[g.rng.randrange(len(prs))]
+                            where = ca.picks(g.rng, qa.data.size)
+                            ok_specials = [s_ for s_ in ca.SPECIALS if s_ == ca.CONTROL_SPECIAL or (qa.data.dtype.kind in "fc" and qa.data.size)]
+                            combos = g.rng.sample([c for c in ca.COMBOS if c[1] in ok_specials], 3)
+                            _alias_runs(rec, t, lambda relation, special, qa=qa, qb=qb, where=where: ca.aliased(call, qa, qb, ca.inject(qa.data, special, where), relation),
+                                        combos, layout, wraps, seen, strict_text, promo, dt, opt, main, case, lambda fam: (tid, shape, dt, fam), "anyform-alias")
+
                     # ---- dimension "one operand bare in ANY call form": the catalogue's own bare#k forms exist for the base form
                     # only and spell the bare operand as an ndarray; here every form (keyword / positional / custom) with at least
                     # two unit-carrying operands is re-run with one drawn operand bare, spelled as ndarray, nested list or scalar
@@ -441,6 +567,7 @@ def _boundary(payload, rec, quick, seed, wraps, seen):
                         continue
                     layout = g.rng.choice(LAYOUT_DRAW)
                     numpy_qq = {}
+                    qq_main = {}
                     for order in cb.ORDERS:
                         qq_fail = {}
                         for kinds in cb.KINDS:
@@ -498,6 +625,20 @@ def _boundary(payload, rec, quick, seed, wraps, seen):
                                          lambda fam: (tid, shape, dt, fam, order, pat), layout, case, tally=tally)
                             if kinds == ("Q", "Q"):
                                 qq_fail = dict(res)
+                                if order == "xy":
+                                    qq_main = dict(res)
+                    # ---- dimension "operand aliasing x special values": both positions fed from x, every relation x every data class
+                    if (("Q", "Q") in t.entry.kinds):
+                        where = ca.picks(g.rng, bc.x.size)
+                        opt_a = None
+                        try:
+                            opt_a = _optional_names(t, ca.boundary_call(bc, bc.x, ca.CONTROL_RELATION))
+                        except Exception:
+                            pass
+                        if opt_a is not None:
+                            _alias_runs(rec, t, lambda relation, special, where=where: ca.boundary_call(bc, ca.inject(bc.x, special, where), relation),
+                                        ca.COMBOS, layout, wraps, seen, False, False, dt, opt_a, qq_main, {"template": tid, "shape": shape, "dtype": dt},
+                                        lambda fam: (tid, shape, dt, fam), "alias")
                     if len(numpy_qq) == 2:
                         rec.count("boundary:order-sensitivity-probed")
                         rec.count("boundary:order-sensitivity-probed:" + t.cls)
@@ -552,6 +693,21 @@ def extra(tier, seed, results):
                 "boundary: bare operand spelled as scalar": counters.get("boundary:compared:spelled-scalar", 0),
                 "boundary: cases whose NumPy answer changes when the operands are swapped": counters.get("boundary:order-sensitive", 0),
                 "boundary: cases whose NumPy answer changes when the optional parameters are left out": counters.get("boundary:parameter-sensitive", 0)}
+    # dimension: operand aliasing x special values ("alias": boundary templates, all combinations; "anyform-alias": catalogue forms)
+    for pfx, label in (("alias", "aliasing (boundary templates)"), ("anyform-alias", "aliasing (any catalogue form)")):
+        deciding[f"{label}: comparisons"] = counters.get(pfx + ":compared", 0)
+        for r in ca.RELATIONS:
+            deciding[f"{label}: second operand is {r}"] = counters.get(f"{pfx}:compared:rel-{r}", 0)
+            deciding[f"{label}: second operand is {r}, special values change NumPy's answer"] = counters.get(f"{pfx}:compared-special-sensitive:rel-{r}", 0)
+        for s_ in ca.SPECIALS:
+            deciding[f"{label}: data class {s_}"] = counters.get(f"{pfx}:compared:data-{s_}", 0)
+            if s_ not in (ca.CONTROL_SPECIAL, "neg-zero"):
+                deciding[f"{label}: data class {s_} changes NumPy's answer"] = counters.get(f"{pfx}:compared-special-sensitive:data-{s_}", 0)
+    for r, s_ in ca.COMBOS:
+        deciding[f"aliasing (boundary templates): {r} x {s_}"] = counters.get(f"alias:compared:{r}+{s_}", 0)
+    alias_grid = {pfx: {r: {s_: {"compared": counters.get(f"{pfx}:compared:{r}+{s_}", 0), "refused": counters.get(f"{pfx}:refused:{r}+{s_}", 0)} for s_ in ca.SPECIALS}
+                        for r in ca.RELATIONS} for pfx in ("alias", "anyform-alias")}
+    alias_funcs = sorted({k.split(":", 1)[1] for k in reached if k.startswith("alias-cmp:")})
     classes = {c: {"compared": counters.get("boundary:compared:class-" + c, 0), "refused": counters.get("boundary:refused:class-" + c, 0),
                    "order_probed": counters.get("boundary:order-sensitivity-probed:" + c, 0), "order_sensitive": counters.get("boundary:order-sensitive:" + c, 0),
                    "parameter_sensitive": counters.get("boundary:parameter-sensitive:" + c, 0), "must_be_order_sensitive": asym} for c, asym in cb.CLASSES.items()}
@@ -571,6 +727,11 @@ def extra(tier, seed, results):
             raise core.Inconclusive(f"only {len(cmp_)} of {len(funcs)} catalogued functions produced a comparable result")
     return {
         "sub_monitors": deciding,
+        "aliasing_x_special_values": {"relations": list(ca.RELATIONS), "data_classes": list(ca.SPECIALS), "grid": alias_grid,
+                                      "neg_zero_changes_numpys_answer": {pfx: counters.get(f"{pfx}:compared-special-sensitive:data-neg-zero", 0) for pfx in ("alias", "anyform-alias")},
+                                      "control_runs_for_attribution": {pfx: counters.get(f"{pfx}:control-runs-for-attribution", 0) for pfx in ("alias", "anyform-alias")},
+                                      "numpy_refused": {pfx: counters.get(f"{pfx}:discarded:numpy-refuses", 0) for pfx in ("alias", "anyform-alias")},
+                                      "functions_and_methods_compared_with_the_same_object_twice": len(alias_funcs), "names": alias_funcs},
         "boundary_family": {"templates": len(btids), "functions_and_methods": len(bfuncs), "decision_classes": classes,
                             "asymmetric_templates_never_order_sensitive": sorted(t.tid for t in cb.templates() if cb.CLASSES[t.cls] and "osens:" + t.tid not in reached),
                             "functions_never_compared": sorted(f for f in bfuncs if "cmp:" + f not in reached)},
